@@ -1642,10 +1642,17 @@ impl<'a> UserModel<'a> {
             return Ok(());
         };
 
+        // The selected area may have been dragged upwards or to the left
+        let [row1, column1, row2, column2] = range;
+        let (row_start, row_end) = (row1.min(row2), row1.max(row2));
+        let (column_start, column_end) = (column1.min(column2), column1.max(column2));
         // If the pasted area is smaller than the selected area we increase it
-        let [row_start, column_start, row_end, column_end] = range;
         let last_row = row_end.max(row_start + styles_height - 1);
         let last_column = column_end.max(column_start + styles_width - 1);
+        // Validate before the first cell is styled: a failure half way would leave a partial paste
+        if last_row > LAST_ROW || last_column > LAST_COLUMN {
+            return Err("Incorrect row or column".to_string());
+        }
 
         let mut diff_list = Vec::new();
         for row in row_start..=last_row {
